@@ -26,6 +26,7 @@ abbrev Handler (α : Type) := α → St → Nat → Int → Option α
 def afterSave (ret : Int) (p : Path) : Except Err Path :=
   if ret.toNat &&& Flag.sectEnd != 0 then p.del else .ok p.invalidate
 
+set_option linter.unusedVariables false in
 /-- the loop of `mpt_parse_config` -/
 def loop {α : Type} (k : Kind) (cfg : Cfg) (save : Handler α) (ctx : α) (prev : Nat) (s : St) (src : Src) :
     Result α :=
@@ -122,20 +123,25 @@ def locate (n : List UInt8) : Forest → Option Nat
 def setChildren : Tree → Forest → Tree
   | .node n v _, cs => .node n v cs
 
-/-- `mpt_node_move(&src, dst)`: what `dst` looks like afterwards.  Source nodes without namesake
-    are appended, for the others only children travel (merged recursively or re-parented). -/
-def moveInto : Forest → Forest → Forest
-  | [], dst => dst
-  | (.node n v cs) :: rest, dst =>
+mutual
+/-- one source node of `mpt_node_move`: without namesake in `dst` it is appended; otherwise only its
+    children travel (merged recursively, or re-parented when the namesake has none) -/
+def moveOne : Tree → Forest → Forest
+  | .node n v cs, dst =>
     match locate n dst with
-    | none => moveInto rest (dst ++ [.node n v cs])
+    | none => dst ++ [.node n v cs]
     | some i =>
       match dst[i]? with
-      | none => moveInto rest dst
+      | none => dst
       | some d =>
-        if cs.isEmpty then moveInto rest dst
-        else if d.children.isEmpty then moveInto rest (dst.set i (setChildren d cs))
-        else moveInto rest (dst.set i (setChildren d (moveInto cs d.children)))
+        if cs.isEmpty then dst
+        else if d.children.isEmpty then dst.set i (setChildren d cs)
+        else dst.set i (setChildren d (moveInto cs d.children))
+/-- `mpt_node_move(&src, dst)`: what `dst` looks like afterwards -/
+def moveInto : Forest → Forest → Forest
+  | [], dst => dst
+  | t :: ts, dst => moveInto ts (moveOne t dst)
+end
 
 /-- `mpt_parse_node(root, parse, fmt)`: return code, children of the target afterwards, and the
     parser context / source for the internals -/
